@@ -338,3 +338,11 @@ def c09(run):
                       "argument, conc child, map key) x 21 execute methods on engine and pool x TLC-enumerated rule sets with the faulty rule at "
                       "every plan position; three calls per session (faulty, healthy, faulty) on one engine / pool; distinct = (fault, method, "
                       "target)" % len(FAULT_CODES))
+
+
+import racefam as RC  # noqa: E402
+
+
+@prop("C19")
+def c19(run):
+    return RC.check_c19(run)
